@@ -92,6 +92,9 @@ func c11Prop(st *CaseStats, fam int) func(t *rapid.T) {
 			cfg.MaxIn = 2
 			depth = rapid.SampledFrom([]int{0, 1}).Draw(t, "depth")
 		}
+		if fam == FamGiant {
+			depth = 0
+		}
 		c, err := GenCase(t, ctx, sc, cfg, depth, "c")
 		if err != nil {
 			t.Fatalf("%s: %v", sc, err)
@@ -135,6 +138,18 @@ func c11Prop(st *CaseStats, fam int) func(t *rapid.T) {
 		}
 		if c.Bytes != nil && !bytes.Equal(c.Bytes, first) {
 			t.Fatalf("%s:\n  persisting the loaded segment again does not reproduce the file it was loaded from (%d vs %d bytes, first difference at %d)", desc, len(c.Bytes), len(first), firstDiff(c.Bytes, first))
+		}
+		// the destination is the caller's own bufio.Writer: same bytes, and the count is the bytes of THIS file
+		for _, src := range []segment.Segment{c.Seg} {
+			for _, size := range []int{16, 4096, 1 << 16} {
+				other, n, err := PersistBufio(src, size)
+				if err != nil {
+					t.Fatalf("%s: WriteTo(bufio.Writer of %d): %v", desc, size, err)
+				}
+				if n != int64(len(other)) || !bytes.Equal(other, first) {
+					t.Fatalf("%s:\n  WriteTo into the caller's bufio.Writer(%d) returned %d; after the owner's Flush %d bytes arrived, the file has %d bytes", desc, size, n, len(other), len(first))
+				}
+			}
 		}
 		mem, err := LoadMem(first)
 		if err != nil {
@@ -242,4 +257,10 @@ func TestC11Aligned(t *testing.T) {
 	st := NewStats("C11Aligned", c11Rule)
 	defer st.Flush()
 	rapid.Check(t, c11Prop(st, FamAligned))
+}
+
+func TestC11Giant(t *testing.T) {
+	st := NewStats("C11Giant", c11Rule)
+	defer st.Flush()
+	rapid.Check(t, c11Prop(st, FamGiant))
 }
